@@ -279,12 +279,24 @@ def parse_guard(raw: Any) -> Optional[GuardIR]:
 
     params = raw.get("params")
     children: List[GuardIR] = []
-    if isinstance(params, dict):
-        # 🔍 Composite guards nest their operands under params.guards.
-        for nested in _as_list(params.get("guards")):
-            parsed = parse_guard(nested)
-            if parsed is not None:
-                children.append(parsed)
+    # 🔍 Composite guards nest their operands under `children`, or inside
+    #    `params` (`guards` / `children`, or a single `guard` for `not`) —
+    #    the same spellings the engine's GuardDefinition accepts. Reading
+    #    only params.guards turned `{"type": "not", "children": [...]}` into
+    #    a user predicate called "not".
+    nested_cfg: Any = None
+    if guard_type in _COMPOSITE_OPERATORS:
+        nested_cfg = raw.get("children")
+    if not nested_cfg and isinstance(params, dict):
+        nested_cfg = params.get("guards")
+        if not nested_cfg and guard_type in _COMPOSITE_OPERATORS:
+            nested_cfg = params.get("children")
+            if not nested_cfg and params.get("guard") is not None:
+                nested_cfg = [params.get("guard")]
+    for nested in _as_list(nested_cfg):
+        parsed = parse_guard(nested)
+        if parsed is not None:
+            children.append(parsed)
 
     return GuardIR(
         type=guard_type,
